@@ -578,7 +578,12 @@ def check_jsonld_reader(cx: Cx, ob: Ob) -> None:
     k, v = lp.a[1]
     import itertools
 
-    from ..rules import path_atoms, formula_eval
+    from ..rules import path_atoms, formula_eval, table_of_code
+
+    tab = table_of_code(cx, lp.body)
+    if tab:
+        ob.undecide(f"from_jsonld classifies the terms of the context through {tab}: which entries are taken, and with what value, is decided by values the rules do not read")
+        return
 
     isinst = lambda *ts: ("call", ("builtin", "isinstance"), (v, ts[0] if len(ts) == 1 else ("tuple", tuple(ts))), ())  # noqa: E731
     STR, DICT = ("builtin", "str"), ("builtin", "dict")
